@@ -206,7 +206,8 @@ impl<T> Matrix<T> {
      */
     #[track_caller]
     pub fn from_flat_row_major(size: (Row, Column), values: Vec<T>) -> Matrix<T> {
-        assert!(size.0 * size.1 == values.len(),
+        // if the number of elements overflows it can't match the length of any data
+        assert!(size.0.checked_mul(size.1) == Some(values.len()),
             "Inconsistent size, attempted to construct a {}x{} matrix but provided with {} elements.",
             size.0, size.1, values.len());
         assert!(!values.is_empty(), "No values provided");
@@ -244,7 +245,13 @@ impl<T> Matrix<T> {
         F: FnMut((Row, Column)) -> T,
     {
         use crate::tensors::indexing::ShapeIterator;
-        let length = size.0 * size.1;
+        let length = match size.0.checked_mul(size.1) {
+            Some(length) => length,
+            None => panic!(
+                "Inconsistent size, a {}x{} matrix has too many elements to represent",
+                size.0, size.1
+            ),
+        };
         let mut data = Vec::with_capacity(length);
         let iterator = ShapeIterator::from([("row", size.0), ("column", size.1)]);
         for [r, c] in iterator {
@@ -1199,8 +1206,15 @@ impl<T: Clone> Matrix<T> {
     #[track_caller]
     pub fn empty(value: T, size: (Row, Column)) -> Matrix<T> {
         assert!(size.0 > 0 && size.1 > 0, "Size must be at least 1x1");
+        let length = match size.0.checked_mul(size.1) {
+            Some(length) => length,
+            None => panic!(
+                "Inconsistent size, a {}x{} matrix has too many elements to represent",
+                size.0, size.1
+            ),
+        };
         Matrix {
-            data: vec![value; size.0 * size.1],
+            data: vec![value; length],
             rows: size.0,
             columns: size.1,
         }
